@@ -59,7 +59,7 @@ def cases(chk):
         if T >= 2 and i % 4 == 2:
             # one callable object for all topologies with equal bounds (the law is still the product of the marginals)
             base = {"F": [F[0]] * T, "bounds": [bounds[0]] * T, "dens": [base["dens"][0]] * T, "sizes": [2, 3, 4][:T], "shared_callable": True}
-        cs.append(dict(base, kind="marginal"))
+        cs.append(dict(base, kind="marginal", explicit_false=i % 2 == 1, fscale_pow=[0, 0, 30, 45][i % 4]))
         if i % 3 == 0 and T <= 2:
             cs.append(dict(base, kind="marginal_sample1", via=["direct", "entry"][len(cs) % 2]))
         if i % 3 == 1:
